@@ -14,8 +14,8 @@ import (
 
 func init() {
 	register("C01", &propDef{
-		Run: checkC01,
-		Explanation: "Monitor argument decided statically. (1) Path-sensitive lockset: on every path of the admission function, and in every other function of the module, each load/store of Broker.key, noMore, cancelIn, cancelOut (also through the own/peer pointer parameters) happens with Broker.mu held; the two call sites bind own/peer to the two distinct fields as mirror images. (2) Exhaustive admission decision table: the admission function is walked by a finite predicate-abstraction interpreter for every valuation of (noMore, key empty, b.key in {empty, equal, other}, own attached, peer attached); on every explored path attach happens iff the specification formula holds, the same critical section stores a non-nil cancel into own and the caller's key itself into b.key before the proxy runs once, key equality is decided only by exact-equality idioms, and refusing paths write nothing, call no proxy, perform no blocking operation, and (outside shutdown) pass through an operator notice and an slog error record whose reason is true of the state. (3) The reader/writer handed to ConnectIn/Out/InOut are used only inside the proxy closure, so a refused attempt gets no I/O. (4) The HTTP handlers pass the path wildcard of their own route as the key. Because all shared-state accesses are inside critical sections of one mutex, executions serialise at critical-section granularity and the per-section table holds for every interleaving and history.",
+		Run:         checkC01,
+		Explanation: "Monitor argument decided statically. (1) Path-sensitive lockset: on every path of the admission function, and in every other function of the module, each load/store of Broker.key, noMore, cancelIn, cancelOut (also through the own/peer pointer parameters) happens with Broker.mu held; the two call sites bind own/peer to the two distinct fields as mirror images. (2) Exhaustive admission decision table: the admission function is walked by a finite predicate-abstraction interpreter for every valuation of (noMore, key empty, b.key in {empty, equal, other}, own attached, peer attached); on every explored path attach happens iff the specification formula holds, the same critical section stores a non-nil cancel into own and the caller's key itself into b.key before the proxy runs once, key equality is decided only by exact-equality idioms, and refusing paths write nothing, call no proxy, perform no blocking operation, and (outside shutdown) pass through an operator notice and an slog error record whose reason is true of the state. (3) The reader/writer handed to ConnectIn/Out/InOut are used only inside the proxy closure, so a refused attempt gets no I/O. (4) The HTTP handlers pass the path wildcard of their own route as the key. Because all shared-state accesses are inside critical sections of one mutex, executions serialise at critical-section granularity and the per-section table holds for every interleaving and history. (6) In Do, the store noMore=true (directly or in a synchronously called function literal) dominates wg.Wait in the goroutine that waits.",
 		Assumptions: []string{
 			"sync.Mutex provides mutual exclusion; net/http ends a request when its handler returns",
 			"unknown branch conditions are explored both ways (over-approximation)",
